@@ -101,15 +101,8 @@ Definition rroute_apart (a b : rroute) : bool :=
 Definition routes_equiv (rs1 rs2 : list rroute) : bool := trace_equiv rroute_eqb rroute_apart rs1 rs2.
 
 (* naming the differences (Diag/C11.v): METHOD /template *)
-Definition show_tseg (a : tseg) : string :=
-  match a with
-  | TLit s => s
-  | TVar n => "{" ++ n ++ "}"
-  | TAlt n l => "{" ++ n ++ ":" ++ String.concat "|" l ++ "}"
-  | TRest n => "{" ++ n ++ ":.*}"
-  end.
 Definition show_rroute (r : rroute) : string :=
-  let '(m, t, _) := r in (m ++ " " ++ String.concat "/" (map show_tseg t))%string.
+  let '(m, t, _) := r in (m ++ " " ++ show_tpl t)%string.
 
 (* the real differences between the generated table and the hand-written one: a route (method, template, handler class)
    present on one side only, or two routes that are not apart and are registered in the opposite order. [] exactly
